@@ -68,6 +68,10 @@ def run_history(ops):
             elif k == 'newunk':
                 pool.append(mido.UnknownMetaMessage(op[1], data=op[2], time=op[3]))
                 out = 'ref %d' % (len(pool) - 1)
+            if k in ('newmsg', 'newmeta', 'newunk') and fail is None and len(pool) % 2 == 1 and vars(pool[-1]).get('time') != 77:
+                fail = _clone_semantics(mido, pool[-1])
+            if k in ('newmsg', 'newmeta', 'newunk'):
+                pass
             elif k == 'copy':
                 src = pool[op[1]]
                 kw = {n_: _real(v_) for n_, v_ in op[3]}
@@ -193,6 +197,40 @@ def run_history(ops):
         lines.append(out)
         lines.append(' | '.join(obj_tok(o) for o in pool))
     return lines, fail
+
+
+def _clone_semantics(mido, obj):
+    """A message copied by the standard library (copy.copy, copy.deepcopy, pickle) is a message like any other: copy(),
+    freeze and thaw of it have value semantics too."""
+    from mido.frozen import freeze_message, thaw_message, is_frozen
+    from .. import persist
+    for how, c in persist.clones(obj):
+        if isinstance(c, Exception):
+            return f'{how} of {obj!r} raised {type(c).__name__}: {c}'
+        try:
+            if type(c) is not type(obj) or not (c == obj):
+                return f'{how} of {obj!r} is {c!r} (class {type(c).__name__})'
+            fo, fc = freeze_message(obj), freeze_message(c)
+            if not (fo == fc) or hash(fo) != hash(fc) or {fo: 1}.get(fc) != 1:
+                return f'the frozen {how} of {obj!r} is not equal to / does not hash like / is not found as the frozen original'
+            if not (thaw_message(fc) == thaw_message(fo)) or is_frozen(thaw_message(fc)):
+                return f'thaw(freeze(x)) of the {how} differs from that of the original {obj!r}'
+            if is_frozen(c):
+                continue
+            c2 = c.copy()
+            snap = (dict(vars(c2)), repr(vars(c2)))
+            if 'data' in vars(c):
+                c.data = tuple(vars(c)['data']) + (4,) if CLASSES[type(c).__name__] != 'Message' else c.data
+                if CLASSES[type(c).__name__] == 'Message':
+                    c.data += (4,)
+            c.time = 77
+            if (dict(vars(c2)), repr(vars(c2))) != snap:
+                return f'after {how}, x.copy(), and assignments on x, the copy changed too: {snap[1]} -> {vars(c2)}'
+            if vars(obj).get('time') == 77 and vars(c2).get('time') != 77:
+                return f'assignments on the {how} of {obj!r} changed the original'
+        except Exception as e:      # noqa: BLE001
+            return f'using the {how} of {obj!r} raised {type(e).__name__}: {e}'
+    return None
 
 
 def _equal_valued_twins(mido, src, kw):
